@@ -46,6 +46,10 @@ CHECKS = {
    "fault injection at every I/O operation of a scripted scenario on a harness stream + quiescence detector + callback/channel monitors; Go race detector",
    "Enumerates, for K in {1,3,8} concurrent calls plus one subscription and a disconnect callback, a fault (EOF / reset / short count + error) at every client-side I/O operation index, a peer close after every output byte count, a local Close() at every operation, (thorough) pairs of faults, and the early-reply schedule, each under whole and fragmented reads. Oracle: every call returns, success only with its own reply, later calls fail, events channel closed, callback exactly once. The enumeration over operation indexes is complete for these scenarios; schedules within a plan are sampled.",
    "The harness stream models a failed connection as failing all later operations and waking the pending read (like a reset socket). 'Never returns' is decided by process quiescence.", "DESIGN.md section 3 C11"),
+ "C12": ("bus", "exploration",
+   "runtime monitor of a server child process: liveness (exit / fatal error with stderr), probe calls from a fresh client on every object not legitimately removed, the child's own goroutine-state quiescence detector for 'blocked forever', CPU/RSS budgets from /proc; Go race detector on the child (reports are violations)",
+   "The real directory server plus freshly generated Probe services run in a child process; one authenticated hostile client plays PRNG sequences of 18 move kinds (duplicate/conflicting/foreign subscriptions, wrong ids, garbage dynamic values, mutated ServiceInfo, unknown targets, all message types, payloads up to the limit, floods drained late or cut, mid-message disconnects, re-authentication racing calls, hostile length fields and signatures, documented removals, random bytes); afterwards a fresh connection must authenticate, list the directory and get f(token) from every object not legitimately removed. Held on the sequences observed.",
+   "The hostile client always ends by closing its connection (a peer that neither reads nor disconnects is outside the statement). An object the sequence sent a well-formed terminate() to is treated as legitimately removed (not probed). A probe watchdog is inconclusive.", "DESIGN.md section 3 C12"),
  "C13": ("bus", "exploration",
    "runtime monitor: per-subscriber event logs checked for exactly-once / order / completeness against logical-clock-stamped emissions; missing events decided by quiescence detector; raw registerEvent/unregisterEvent connection with FIFO barrier; Go race detector",
    "Generated SubscribeTick/SubscribeOther subscribers on the same proxy, same connection and other connections, one emitter, PRNG interleavings incl. concurrent subscribe on one proxy with an emission right after the first return and cancel-of-last racing subscribe. Each subscriber must receive, strictly increasing and of its own signal only, every emission made entirely between its acknowledgement and its cancel request; its channel must close after cancel; on the raw connection no event may follow the unregister reply. Held on the interleavings observed.",
